@@ -270,3 +270,22 @@ def api_defaults(ctx):
     from .common_defaults import defaults as run
     n = run(ctx, [('keys:sign', 'use_rfc6979', 'True'), ('keys:Signature.create', 'use_rfc6979', 'True'), ('keys:sign', 'hash_type', 'SIGHASH_ALL'), ('keys:Signature.create', 'hash_type', 'SIGHASH_ALL'), ('keys:Signature.__init__', 'hash_type', 'SIGHASH_ALL')], 'signatures are no longer a deterministic function of key and message by default')
     ctx.floor(n, 4, 'parameter defaults')
+
+
+@PROP.obligation('C13.der-delegated')
+def der_delegated(ctx):
+    """Strict DER (BIP66) of produced signatures is established by delegation: encoding.der_encode_sig hands r and s to the DER encoder of
+    the ECDSA back end (fastecdsa DEREncoder.encode_signature, or ecdsa.der.encode_integer / encode_sequence) and returns its result
+    unchanged. If the function stops doing that, this analysis cannot vouch for the encoding any more and answers exit 2 (it does not
+    try to judge a hand-written encoder)."""
+    q = 'encoding:der_encode_sig'
+    fn = ctx.repo.func(q)
+    calls = sorted(set(norm(c.func) for c in ast.walk(fn) if isinstance(c, ast.Call)))
+    rets = [n for n in ast.walk(fn) if isinstance(n, ast.Return) and n.value is not None]
+    ctx.saw('der_encode_sig calls %s' % calls)
+    fast = [r for r in rets if norm(r.value) == 'DEREncoder.encode_signature(r, s)']
+    slow = [r for r in rets if norm(r.value) == 'ecdsa.der.encode_sequence(rb, sb)']
+    if not fast or not slow or len(rets) != 2:
+        ctx.undecided('der_encode_sig no longer returns the result of the back end DER encoder (returns: %s): strict DER cannot be decided statically' % [norm(r.value)[:50] for r in rets])
+    defs = {norm(n.targets[0]): norm(n.value) for n in ast.walk(fn) if isinstance(n, ast.Assign)}
+    ctx.require(defs.get('rb') == 'ecdsa.der.encode_integer(r)' and defs.get('sb') == 'ecdsa.der.encode_integer(s)', q, 'r / s are not encoded by ecdsa.der.encode_integer: %s' % defs, fn)
